@@ -9,7 +9,9 @@ MANIFEST = {
             "candidate pivots are exactly zero; in that case no subscript outside the column's list is touched (the diagonal "
             "row is recorded for a column without candidates); the info returned by the factorization is the smallest nonzero "
             "per-column info for EVERY distribution of the columns over the workers and every processing order (schedule "
-            "independence). Tie: the pivot model is replayed on every pivot search of real runs (shared with C02); the real "
+            "independence). Tie: InfoModel.gstrf_info (extracted) is fed with the per-worker sequences of pivot-search outcomes of "
+            "every real run (hook, worker number) and must give the returned info, including runs in which a worker meets a later "
+            "singular column before an earlier one (counted in the evidence); the pivot model is replayed on every pivot search of real runs (shared with C02); the real "
             "drivers p?gssv / p?gssvx (s/d/c/z, ASan build, 1..8 threads, seeded perturbation) are run on explicit zero columns, "
             "structurally empty columns/rows, structurally rank-deficient patterns, relaxed supernodes with fewer rows than "
             "columns and exact cancellation; info is compared with an exact rational elimination of A*Pc, B/X/A with pristine "
@@ -49,7 +51,7 @@ def first_dependent_column(n, cols):
 def singular_case(rng, cid, prec, n, sub):
     ncomp = 2 if prec in "cz" else 1
     rnd = c01.f32 if prec in "sc" else (lambda v: v)
-    base = gen.matrix(rng, rng.choice(["random", "banded", "blockdiag", "arrow"]), n)
+    base = gen.matrix(rng, rng.choice(["blockdiag", "blockdiag", "grid", "random"] if sub == "multizero" else ["random", "banded", "blockdiag", "arrow"]), n)
     n = base["n"]
     ent = {}
     for j in range(n):
@@ -68,6 +70,12 @@ def singular_case(rng, cid, prec, n, sub):
         for key in list(ent):
             if key[0] == k:
                 del ent[key]
+    elif sub == "multizero":
+        # several explicit zero columns: with >= 2 workers a worker can meet a LATER singular column before an earlier one
+        for kk in rng.sample(range(n), min(n, rng.choice([2, 3, 4]))):
+            for key in list(ent):
+                if key[1] == kk:
+                    ent[key] = 0.0
     elif sub == "zerorow":
         for key in list(ent):
             if key[0] == k:
@@ -103,11 +111,52 @@ def singular_case(rng, cid, prec, n, sub):
     nrhs = rng.choice([1, 2])
     rhs = [rnd(gen.val(rng)) for _ in range(n * nrhs * ncomp)]
     driver = rng.choice(["gssv", "gssvx"])
+    if sub == "multizero":
+        return dict(id=cid, prec=prec, driver=driver, stype="NC", m=n, n=n, colptr=A["colptr"], rowind=A["rowind"], vals=vals,
+                    nrhs=nrhs, rhs=rhs, nprocs=rng.choice([2, 3, 4, 8]), colperm=rng.choice([0, 1, 2, 3]),
+                    ienv=[rng.choice([1, 2, 4]), rng.choice([1, 2, 4]), rng.choice([4, 8, 200]), 200, 100, -50, -50, -30],
+                    perturb=[rng.randint(1, 10 ** 6), rng.choice([0.2, 0.5]), rng.choice([100, 400])],
+                    fact=rng.choice([0, 1]), trans=0, dumplu=1, timeout=60, kind=sub, trace=2)
     return dict(id=cid, prec=prec, driver=driver, stype="NC", m=n, n=n, colptr=A["colptr"], rowind=A["rowind"], vals=vals,
                 nrhs=nrhs, rhs=rhs, nprocs=rng.choice([1, 2, 4, 8]), colperm=rng.choice([0, 1, 2, 3]),
                 ienv=[rng.choice([1, 2, 4, 8]), rng.choice([1, 2, 4, 6]), rng.choice([8, 200]), 200, 100, -50, -50, -30],
                 perturb=[rng.randint(1, 10 ** 6), rng.choice([0.0, 0.2]), rng.choice([0, 100])],
                 fact=rng.choice([0, 1]), trans=0, dumplu=1, timeout=60, kind=sub, trace=2)
+
+
+def bigfirst_case(rng, cid, prec):
+    """a big dense block first (relaxed leaf + pipelined interior panels, one interior column exactly zero), small blocks after it
+    (some with a zero column), natural order, >= 2 workers, strong perturbation: the worker that drains the queue meets the LATER
+    singular column first and the pipelined interior panel with the EARLIER one afterwards"""
+    ncomp = 2 if prec in "cz" else 1
+    rnd = c01.f32 if prec in "sc" else (lambda v: v)
+    s1 = rng.randint(7, 14); relax = rng.choice([3, 4, 6]); w = rng.choice([1, 2, 3])
+    blocks = [s1] + [rng.randint(2, 4) for _ in range(rng.randint(1, 3))]
+    ent = {}; off = 0; zc = []
+    for bi, sz in enumerate(blocks):
+        for i in range(sz):
+            for j in range(sz):
+                if i == j or rng.random() < 0.9:
+                    ent[(off + i, off + j)] = gen.val(rng)
+        if bi == 0:
+            zc.append(off + rng.randint(relax, sz - 1))
+        elif bi == 1 or rng.random() < 0.5:
+            zc.append(off + rng.randrange(sz))
+        off += sz
+    n = off
+    for (i, j) in list(ent):
+        if j in zc:
+            ent[(i, j)] = 0.0
+    A = gen.from_entries(n, ent, "singular-bigfirst")
+    vals = []
+    for v in A["vals"]:
+        vals += [rnd(v), rnd(gen.val(rng)) if v != 0 else 0.0] if ncomp == 2 else [rnd(v)]
+    rhs = [rnd(gen.val(rng)) for _ in range(n * ncomp)]
+    return dict(id=cid, prec=prec, driver=rng.choice(["gssv", "gssvx"]), stype="NC", m=n, n=n, colptr=A["colptr"], rowind=A["rowind"],
+                vals=vals, nrhs=1, rhs=rhs, nprocs=rng.choice([2, 2, 3, 4]), colperm=0,
+                ienv=[w, relax, rng.choice([8, 200]), 200, 100, -50, -50, -30],
+                perturb=[rng.randint(1, 10 ** 6), rng.choice([0.3, 0.6]), rng.choice([200, 1000])], fact=rng.choice([0, 1]), trans=0,
+                dumplu=1, timeout=60, kind="bigfirst", trace=2)
 
 
 def expected_info(c, r):
@@ -138,6 +187,24 @@ def expected_info(c, r):
         rr = random.Random(7)
         cols = [{rw: Fraction(rr.randint(1, 10 ** 6), rr.randint(1, 10 ** 6)) for rw in col} for col in cols]
     return first_dependent_column(n, cols)
+
+
+def info_parts(r):
+    """per worker, the infos (0 or column+1) of its pivot searches in its own order, as the hook logged them"""
+    parts = {}
+    for p in r.get("pivots", []):
+        z = all(float.fromhex(v) == 0.0 for v in p["vals"])
+        parts.setdefault(p.get("pn", 0), []).append(p["j"] + 1 if z else 0)
+    return [parts[k] for k in sorted(parts)]
+
+
+def out_of_order(parts):
+    """a worker met a singular column AFTER a later-numbered singular column (the case in which 'first' and 'smallest' differ)"""
+    for pl in parts:
+        nz = [x for x in pl if x]
+        if any(b < a for a, b in zip(nz, nz[1:])):
+            return True
+    return False
 
 
 def oracle(c, r):
@@ -186,26 +253,40 @@ def oracle(c, r):
 
 def run(ctx):
     rng = ctx.rng
-    ctx.cov["rule"] = ("singular inputs of 8 kinds (explicit zero column/row, structurally empty column/row, 3 columns in 2 rows, "
+    ctx.cov["rule"] = ("singular inputs of 9 kinds (several zero columns in different subtrees with >= 2 workers and strong perturbation, explicit zero column/row, structurally empty column/row, 3 columns in 2 rows, "
                        "exact cancellation block, relaxed supernode with fewer rows than columns) x s/d/c/z x p?gssv/p?gssvx x nprocs "
                        "1..8 x orderings 0..3, ASan build, seeded perturbation; non-trivial = n>=3; distinct by matrix+parameters")
     ctx.coq_properties()
-    subs = ["zerocol", "emptycol", "emptyrow", "zerorow", "structdef", "cancel", "relaxdef"]
+    pdrv = ctx.ocaml_model("pivot")
+    subs = ["zerocol", "emptycol", "emptyrow", "zerorow", "structdef", "cancel", "relaxdef", "multizero", "bigfirst", "bigfirst"]
     N = {"d": 56, "s": 14, "z": 14, "c": 14} if ctx.quick() else {"d": 700, "s": 200, "z": 200, "c": 200}
-    nok = 0
+    nok = 0; ninfo = 0; nooo = 0
     for prec in "dszc":
         cases = []
         for k in range(N[prec]):
             sub = subs[k % len(subs)]
             if prec in "cz" and sub == "cancel":
                 sub = "zerocol"
-            cases.append(singular_case(rng, k + 1, prec, rng.randint(2, 24 if ctx.quick() else 60), sub))
+            cases.append(bigfirst_case(rng, k + 1, prec) if sub == "bigfirst" else
+                         singular_case(rng, k + 1, prec, rng.randint(2, 24 if ctx.quick() else 60), sub))
         exe = drv.build(ctx, prec, "asan")
         res = drv.run_grouped(exe, cases, par=max(1, vf.NCPU // 3))
         for c, r in zip(cases, res):
             ctx.count((prec, c["kind"], c["n"], tuple(c["rowind"][:40]), tuple(c["vals"][:6]), c["nprocs"], c["driver"]),
                       nontrivial=c["n"] >= 3, kind="%s-%s-%s" % (prec, c["driver"], c["kind"]))
             bad = oracle(c, r)
+            # K-exact tie of InfoModel.gstrf_info: fed with the per-worker info sequences of THIS run it must give the returned info
+            if bad is None and r.get("hooks") and r.get("pivots") and r.get("info", 0) <= c["n"]:
+                parts = info_parts(r)
+                rc, out, err = vf.sh2([pdrv], inp="INFO " + " | ".join(" ".join(map(str, pl)) for pl in parts) + "\n", timeout=30)
+                if rc != 0 or not out.startswith("INFO "):
+                    ctx.broken.append("info model driver failed: %s %s" % (out[:80], err[:80]))
+                else:
+                    ninfo += 1
+                    nooo += 1 if out_of_order(parts) else 0
+                    if int(out.split()[1]) != r["info"]:
+                        bad = ("info = %d but InfoModel.gstrf_info on the per-worker sequences of this run gives %s (a worker met singular "
+                               "columns %s)" % (r["info"], out.split()[1], [[x for x in pl if x] for pl in parts]))
             if bad is None:
                 nok += 1
             else:
@@ -220,6 +301,10 @@ def run(ctx):
                               {"case": c, "result": {k: v for k, v in r.items() if k not in ("L", "U", "events", "pivots")}}, key=key)
         ctx.sample({k: cases[0][k] for k in ("prec", "kind", "driver", "n", "nprocs", "colperm", "fact")}, limit=8)
     ctx.cov["correspondence"]["singular_runs_ok"] = nok
+    ctx.cov["correspondence"]["info_model_agreements"] = ninfo
+    ctx.cov["correspondence"]["runs_where_a_worker_met_singular_columns_out_of_order"] = nooo
+    if nooo == 0:
+        ctx.broken.append("coverage: no run in which a worker met singular columns out of order (the case separating 'first' from 'smallest')")
     ctx.log("singular runs ok: %d" % nok)
     ctx.cov["partial"] += ["generic_first_deficient: 'info = least k with structural rank of the first k columns < k' is decided by the "
                            "exact oracle per input, not proved", "exact cancellation in floating point is order dependent in general; "
